@@ -176,6 +176,20 @@ func init() {
 		"github.com/mailru/easyjson/jlexer.bytesToStr": func(fr *frame, args []value) value { return bytesToStr(args[0].([]value)) },
 		"github.com/mailru/easyjson/jlexer.strToBytes": func(fr *frame, args []value) value { return strToBytes(args[0]) },
 
+		// encoding/json scanner pool (its package init is not interpretable)
+		"encoding/json.newScanner": func(fr *frame, args []value) value {
+			pkg := fr.i.prog.ImportedPackage("encoding/json")
+			st := pkg.Type("scanner").Object().Type()
+			cell := zero(st)
+			p := &cell
+			for _, m := range []string{"reset"} {
+				fn := fr.i.prog.LookupMethod(types.NewPointer(st), pkg.Pkg, m)
+				call(fr.i, fr, token.NoPos, fn, []value{p})
+			}
+			return p
+		},
+		"encoding/json.freeScanner": extNop,
+
 		// strconv fast paths on concrete arguments
 		"strconv.FormatFloat": extUseBodyIfSym(func(fr *frame, args []value) value {
 			return strconv.FormatFloat(args[0].(float64), args[1].(byte), args[2].(int), args[3].(int))
